@@ -90,9 +90,9 @@ CLAIMED = {
    technique="Coq refinement proof (model -> abstract set) by invariant preservation + extracted-model-vs-C correspondence after every operation",
    ref="3/C17"),
  "C18": dict(
-   text="Machine-checked proofs (Coq, no axioms): (a) for the Gallina mirror of the row-oriented dense matrix (32-bit word packing) get-after-set/flip/clear/row-XOR are exactly the bit-matrix operations for all dimensions (column counts not multiples of 32 included), an all-zero-words row has no bit; (b) for the mirror of the symbol-level solver (pivot search, row swap, word-granular row XOR, NULL constant terms, back-substitution) whenever it returns, its result coincides with EVERY solution of the p x q system on all q unknowns and is a solution as soon as one exists, for all p, q, matrices, right-hand sides and symbol groups. Not yet theorems: failure only without full column rank, dense copy/copyrows/copycols, SWAR popcounts; these are decided by the correspondence (extracted models vs C under ASan, all words incl. padding after every op; solver statuses and solutions) and by independent python oracles (bit matrix, GF(2) rank + unique solution, popcount).",
+   text="Machine-checked proofs (Coq, no axioms): (a) for the Gallina mirror of the row-oriented dense matrix (32-bit word packing) get-after-set/flip/clear/row-XOR are exactly the bit-matrix operations for all dimensions (column counts not multiples of 32 included), an all-zero-words row has no bit; (b) for the mirror of the symbol-level solver (pivot search, row swap, word-granular row XOR, NULL constant terms, back-substitution) whenever it returns, its result coincides with EVERY solution of the p x q system on all q unknowns and is a solution as soon as one exists; it gives up if and only if the matrix has a non-trivial GF(2) kernel vector (no full column rank), independently of the right-hand sides; all this for all p, q, matrices, right-hand sides and symbol groups. Not yet theorems: dense copy/copyrows/copycols, SWAR popcounts; these are decided by the correspondence (extracted models vs C under ASan, all words incl. padding after every op; solver statuses and solutions) and by independent python oracles (bit matrix, GF(2) rank + unique solution, popcount).",
    note="Trusted: Coq kernel; Dense.v/DenseSolve.v hand-written mirrors; extraction + drivers; oracles. Partial as stated.",
-   technique="Coq proofs over hand-written mirrors (bit-level ops; solver soundness by row-operation invariants) + extracted-model-vs-C correspondence + rank oracle",
+   technique="Coq proofs over hand-written mirrors (bit-level ops; solver soundness and completeness by row-operation invariants) + extracted-model-vs-C correspondence + rank oracle",
    ref="3/C18"),
  "C19": dict(
    text="Machine-checked proof (Coq + Flocq) about the Gallina function that tools/c2gallina.py generates from of_rand.c on every run: for every state in 1..2^31-2 the next state is 16807*s mod (2^31-1) (Carta's split = modular multiplication, never 0), seeding accepts exactly 1..2^31-2, the 10,000th state from 1 is 1043618065, the returned value is RFC 5170's binary64 expression, lies in 0..maxv-1 for every maxv <= 2^24 (also for products above 2^53) and equals the exact floor below 2^53. All 2^31-2 states and all maxv at once; the compiled C is tied in by a differential run against the extracted model plus an exact-integer oracle.",
